@@ -7,6 +7,7 @@ import (
 	"io"
 	"os"
 	"runtime/debug"
+	"time"
 
 	"github.com/ipfs/go-cid"
 	unixfsnode "github.com/ipfs/go-unixfsnode"
@@ -418,7 +419,7 @@ func c05Concurrent(r *core.Run) {
 			for round := 0; round < 6; round++ {
 				grew := false
 				pending := map[string]bool{}
-				ex := &xplore.Explorer{Bound: bound, Horizon: 20000, Replay: 1, MaxExecs: 200000, OnDiverge: func(ch []int, a, b string) {
+				ex := &xplore.Explorer{Bound: bound, Horizon: 20000, Replay: 1, MaxExecs: 200000, Deadline: time.Now().Add(exploreBudget(r.Quick())), OnDiverge: func(ch []int, a, b string) {
 					r.InternalError(fmt.Sprintf("nondeterministic replay %s %v: %q vs %q", desc, ch, a, b))
 				}}
 				ex.Explore(func(x *xplore.Ctx) string {
@@ -481,6 +482,10 @@ func c05Concurrent(r *core.Run) {
 				})
 				execs += int64(ex.Stats.Executions)
 				r.Transitions.Add(int64(ex.Stats.ChoicePoints))
+				if ex.Stats.Capped {
+					r.Cap(fmt.Sprintf("execution / time budget hit: concurrent ranges on %s after %d executions", desc, ex.Stats.Executions))
+					break
+				}
 				if !grew {
 					break
 				}
